@@ -38,8 +38,43 @@ def weight_of(chain, input_expr=""):
     return int(round(w))
 
 
-def build(pid, macro, ctx, input_expr, chain, final_t, second_branch=False, group="", extra_desc=None, heavy=False, unwind=12, tok=False, prop="C01"):
-    """program comparing macro and reference on the same symbolic input"""
+NO_EXPR_OPERAND = {"..", ">.", "=>[]", "=>[]u", "|n>", "^^>", "<->"}
+
+
+def split_top_comma(text):
+    depth = 0
+    for k, ch in enumerate(text):
+        if ch in "([{":
+            depth += 1
+        elif ch in ")]}":
+            depth -= 1
+        elif ch == "," and depth == 0:
+            return text[:k].strip(), text[k + 1:].strip()
+    raise ValueError(text)
+
+
+def blockify(st):
+    """the step's macro text with every expression operand written as a `{ .. }` block (such operands are evaluated in front of the step)"""
+    if st.op in NO_EXPR_OPERAND or st.inner is not None:
+        return st.mac
+    op, _, rest = st.mac.partition(" ")
+    if not rest.strip():
+        return st.mac
+    if st.op in ("^@", "?^@"):
+        a, b = split_top_comma(rest)
+        return "%s { %s }, { %s }" % (op, a, b)
+    return "%s { %s }" % (op, rest)
+
+
+def has_operand(st):
+    return st.op not in NO_EXPR_OPERAND and st.inner is None and st.mac.partition(" ")[2].strip() != ""
+
+
+def build(pid, macro, ctx, input_expr, chain, final_t, second_branch=False, group="", extra_desc=None, heavy=False, unwind=12, tok=False, prop="C01",
+          blocks=False, block_init=False):
+    """program comparing macro and reference on the same symbolic input
+    blocks: every expression operand is written as a block; block operands are evaluated before the chain starts, so operand
+    expressions are not logged in these programs (callbacks still are)"""
     is_async, is_try, is_spawn = KINDS[macro]
     cmpf = finish(final_t)
     if "usize" in str(final_t) and "vec" in str(final_t):
@@ -49,7 +84,14 @@ def build(pid, macro, ctx, input_expr, chain, final_t, second_branch=False, grou
     input_expr = "lv(%d, %s)" % (i_init, input_expr)
     mac_chain = render_mac(chain)
     ref = render_ref(chain, input_expr)
+    if blocks:
+        unlog = lambda x: re.sub(r"lv\(\d+, ", "(", x)
+        mac_chain = unlog(" ".join(("~" if st.deferred else "") + blockify(st) for st in chain))
+        ref = unlog(render_ref(chain, "@BASE@")).replace("@BASE@", input_expr)
     ids = [i_init] + all_ids(chain)
+    ref_input = input_expr
+    if block_init:
+        input_expr = "{ %s }" % input_expr
     if second_branch:
         text = "%s! { %s, %s %s }" % (macro, "mo(true, 7u8)" if is_try and final_t[0] == "opt" else ("mk(true, 7u8)" if is_try else "7u8"), input_expr, mac_chain)
     else:
@@ -84,6 +126,8 @@ def build(pid, macro, ctx, input_expr, chain, final_t, second_branch=False, grou
     if prop != "C01":
         L = [l.replace("C01[", prop + "[") for l in L]
     desc = dict(macro=macro, operators=[("~" if s.deferred else "") + s.op + (" >>>" if s.inner is not None else "") for s in chain], final_type=str(final_t), reference=ref)
+    if blocks:
+        desc["operands"] = "written as { .. } blocks" + (", block initial value" if block_init else "")
     if extra_desc:
         desc.update(extra_desc)
     return Program(pid, text, "    " + "\n    ".join(l for l in L if l), desc=desc, group=group, role=dict(kind=macro), unwind=unwind, heavy=heavy,
@@ -154,6 +198,44 @@ def pair_programs(tier, seed, start):
             if c.rnd.random() < 0.25:
                 chain[1].deferred = True
             ps.append(build("p%04d" % i, "join", c, inp, chain, out, group="pair"))
+    return ps, i
+
+
+def block_programs(tier, seed, start):
+    """every typeable ordered pair of operand-carrying operators with the operands written as blocks (quick: a seed-chosen third);
+    every second program also writes the initial value as a block"""
+    ps = []
+    i = start
+    r = rng(seed, "blocks")
+    for a in OP_NAMES:
+        for bname in OP_NAMES:
+            if a in NO_EXPR_OPERAND or bname in NO_EXPR_OPERAND:
+                continue
+            found = None
+            types = list(INPUT_TYPES)
+            r.shuffle(types)
+            for t in types:
+                for attempt in range(4):
+                    c = Ctx(random.Random("blk-%s-%s-%s-%d-%d" % (seed, a, bname, attempt, INPUT_TYPES.index(t))), itlen=2)
+                    inp = c.value(t)
+                    s1 = OPS[a](c, t)
+                    if s1 is None:
+                        break
+                    s2 = OPS[bname](c, s1.out)
+                    if s2 is not None and has_operand(s1) and has_operand(s2):
+                        found = (c, inp, [s1, s2], s2.out)
+                        break
+                if found:
+                    break
+            if not found:
+                continue
+            i += 1
+            if tier == "quick" and r.random() > 0.34:
+                continue
+            c, inp, chain, out = found
+            if c.rnd.random() < 0.25:
+                chain[1].deferred = True
+            ps.append(build("p%04d" % i, "join", c, inp, chain, out, group="blocks", blocks=True, block_init=(i % 2 == 0)))
     return ps, i
 
 
@@ -299,13 +381,71 @@ def future_program(pid, macro, seed, length):
     return Program(pid, text, "    " + "\n    ".join(L), desc=desc, group="future/" + macro, role=dict(kind=macro), unwind=12, weight=w)
 
 
+# ---- async: stream-level operators over stream::iter(..) (thorough tier only, one or two elements) ---------------------
+STREAM_OPS = {
+    "|>": lambda c: ("|> move |v: u8| { call(%d, v); v ^ %s }" % (c.cid(), c.k()), ".map(%s)"),
+    "?>": lambda c: ("?> move |v: &u8| { call(%d, *v); ready(*v > %s) }" % (c.cid(), c.k()), ".filter(%s)"),
+    "?|>": lambda c: ("?|> move |v: u8| { call(%d, v); ready(mo(v > %s, v ^ 1)) }" % (c.cid(), c.k()), ".filter_map(%s)"),
+    "|n>": lambda c: ("|n>", ".enumerate()"),
+    ">@>": lambda c: (">@> stream::iter([%s])" % c.k(), ".chain(%s)"),
+    ">^>": lambda c: (">^> stream::iter([%s])" % c.k(), ".zip(%s)"),
+}
+
+
+def stream_program(pid, macro, seed, opname, nelem, fold):
+    ctx = Ctx(rng(seed, pid))
+    elems = ", ".join(ctx.k() for _ in range(nelem))
+    inp = "stream::iter([%s])" % elems if nelem else "stream::iter([0u8; 0])"
+    mac, refsuffix = STREAM_OPS[opname](ctx)
+    operand = mac.split(" ", 1)[1] if " " in mac else ""
+    ref = inp + (refsuffix % operand if "%s" in refsuffix else refsuffix)
+    if fold:
+        # consume with the stream-level fold (async closure), the macro yields a future of u8
+        k = ctx.k()
+        item = "v.0 as u8 ^ v.1" if opname == "|n>" else ("v.0 ^ v.1" if opname == ">^>" else "v")
+        tail_m = " ^@ %s, move |a: u8, v| ready(a.wrapping_mul(3) ^ (%s))" % (k, item)
+        tail_r = ".fold(%s, move |a: u8, v| ready(a.wrapping_mul(3) ^ (%s)))" % (k, item)
+    else:
+        tail_m = " =>[] Vec<_>"
+        tail_r = ".collect::<Vec<_>>()"
+    text = "%s! { %s %s%s }" % (macro, inp, mac, tail_m)
+    ids = ctx.ids
+    L = list(ctx.decls)
+    L.append("let mut m = %s;" % text)
+    L.append("vassert!(ncalls() == 0, \"C01[%s]: async macro is lazy\");" % pid)
+    L.append("let pm = poll_once(&mut m);")
+    L.append("let tm = (%s, trace(), ncalls());" % trace_vars(ids) if ids else "let tm = ();")
+    L.append("reset_calls();")
+    L.append("let mut r = Box::pin(%s%s);" % (ref, tail_r))
+    L.append("let pr = poll_once(&mut r);")
+    L.append("let tr = (%s, trace(), ncalls());" % trace_vars(ids) if ids else "let tr = ();")
+    L.append("vassert!(pm == pr && pm.is_ready(), \"C01[%s]: stream-level operators == StreamExt method chain\");" % pid)
+    L.append("vassert!(tm == tr, \"C01[%s]: same callback trace as the StreamExt chain\");" % pid)
+    L.append("vcover!(true, \"end reached\");")
+    return Program(pid, text, "    " + "\n    ".join(L), desc=dict(macro=macro, stream_operator=opname, elements=nelem, consumer="fold" if fold else "collect"),
+                   group="stream/" + macro, role=dict(kind=macro), unwind=44, heavy=True, solo=True, weight=20)
+
+
+def stream_programs(tier, seed, start):
+    ps = []
+    i = start
+    if tier != "thorough":
+        return ps, i
+    for k, opname in enumerate(STREAM_OPS):
+        # measured: Vec collection of two elements and filter/filter_map over two elements exceed 12 GB in CBMC; one element each
+        for nelem, fold in ((0 if opname == ">@>" else 1, False), (2 if opname in ("|>", "|n>", ">@>", ">^>") else 1, True)):
+            i += 1
+            ps.append(stream_program("p%04d" % i, ["join_async", "join_async_spawn"][k % 2] if False else "join_async", seed, opname, nelem, fold))
+    return ps, i
+
+
 def programs(tier, seed):
     ps = all_programs(tier, seed)
     if tier == "quick":
         # quick tier: programs with two partition steps (or partition + another allocation-heavy step) are thorough-only
         ps = [p for p in ps if p.weight <= 14 or p.group == "single"]
     else:
-        ps = [p for p in ps if p.weight <= 60 or p.group == "single"]
+        ps = [p for p in ps if p.weight <= 60 or p.group == "single" or p.group.startswith("stream")]
     return ps
 
 
@@ -324,6 +464,10 @@ def all_programs(tier, seed):
     for k in range(nf):
         i += 1
         ps.append(future_program("p%04d" % i, amacros[k % len(amacros)], seed, 1 + k % (3 if tier == "quick" else 4)))
+    a, i = stream_programs(tier, seed, i)
+    ps += a
+    a, i = block_programs(tier, seed, i)
+    ps += a
     return ps
 
 
@@ -334,11 +478,12 @@ def generate(tier, seed):
 META = dict(
     level="translation_validation",
     rule="programs: every operator alone on every input type it types on; every typeable ordered pair of operators (quick: a seed-chosen third); seed-sampled chains of 3-6 operators; "
+         "every typeable ordered pair of operand-carrying operators with all operands (every second program: and the initial value) written as { .. } blocks (quick: a third); "
          "chains under try_join!/join_spawn!/try_join_spawn!/spawn!/try_spawn! as only branch and as second branch; future-level operator chains over ready(..) under the six async names. "
          "Each program is compared with the documented method chain on the same symbolic input (values, iterator elements, thresholds) including the callback trace; packed 8 per query; "
          "disagreements_checked = programs whose query was discharged; distinct = distinct invocation texts",
     functions_encoded=["expansions of join! and the other macro names over all 22 operators (DEFAULT_GROUP_DETERMINERS, ActionGroup::parse_action_expr, ProcessExpr/ErrExpr ToTokens, expand_process_expr)"],
     bounds=["iterators of 3 symbolic elements for single operators; 2 (quick) / 3 (thorough) for pairs, chains and macro variants; operand iterators 2", "chains <= 2 exhaustive, <= 6 sampled", "unwind 12 (Vec equality / iterator loops)", "async: future-level operators over ready futures, at most one and_then / or_else per chain of three or more operators"],
-    outside=["longer iterators/chains", "operand expressions outside the generated shapes (see C14)", "stream-level operators in async macros", "operators of the `full` feature (not enabled by `join`)"],
+    outside=["longer iterators/chains", "operand expressions outside the generated shapes (see C14)", "stream-level operators in async macros beyond the thorough tier's one/two-element programs", "operators of the `full` feature (not enabled by `join`)"],
     assumptions=["reference renderings of DESIGN.md Appendix A", "thread model of DESIGN.md 2.2 for the spawn names"],
 )
